@@ -37,6 +37,8 @@ CLAIMED = {
          "enumerated forced-branch tables + CFG dominance/guard rules on work_queue.c"),
  "C18": ("ticket-lock tables (wait-loop exit, ticket+1), memory orders, trylock word construction interpreted over snapshots incl. wrap-around, record layout of the two halves, writers table",
          "enumerated tables + word-level interpretation + record-layout facts on fiber_spinlock.c"),
+ "C19": ("abstract interpretation of the x86-64 switch template over a symbolic stack (push/pop symmetry and slots, resume-address displacement, skip, saved rsp, operand binding, clobbers), fresh-context layout read as a store sequence and compared with the template, stack allocate/release pairing and who-may-call rules per strategy, ucontext operand order",
+         "inline-assembly abstract interpretation + store-sequence analysis + who-may-call rules on fiber_context.c (thorough: malloc / mmap / ucontext configurations)"),
  "C20": ("cmpxchg16b operand/constraint table, union layouts, per-site interpreted snapshot tables (expected = whole snapshot, installed = counter+1 and the specified pointer, fresh loads after failure), load order/barrier, link-inside-loop and claim-behind-CAS rules, multi-signal head-state rows, flushable-stack rules",
          "inline-asm operand check, record-layout facts, word-level interpretation over enumerated snapshots, CFG dominance/guard rules on the double-word-CAS headers"),
  "C10": ("fairness certificate: push/pop deque fields differ, swap only on empty, successor re-queue",
